@@ -30,12 +30,34 @@ Theorem C11_lookup :
   forall (a b : program) (kd : kind) (k : N), WF a -> WF b ->
     lookup k (defs kd (add a b)) =
     match lookup k (defs kd b) with Some v => Some v | None => lookup k (defs kd a) end.
-Proof. intros a b kd k Ha Hb. rewrite (defs_add kd a b Ha Hb). apply lookup_merge. Qed.
+Proof. intros a b kd k. exact (lookup_defs_add a b kd k). Qed.
 
-(** The used-qubit set of A+B is the union. *)
+(** The used-qubit set of A+B is the union — unless a calibration of A was replaced by one of B
+    (the implementation's test: the calibration count shrank, [replaced]); then (repair 1fc8c68)
+    the cache is rebuilt from the listing, because the union may contain qubits mentioned only by
+    the replaced calibration. *)
 Theorem C11_used :
-  forall (a b : program) (q : N), In q (used (add a b)) <-> In q (used a) \/ In q (used b).
+  forall a b : program,
+    used (add a b) =
+    if replaced a b then listing_gq (to_instructions (add a b)) else used a ++ used b.
+Proof. exact used_add. Qed.
+
+Theorem C11_used_union :
+  forall (a b : program) (q : N), replaced a b = false ->
+    (In q (used (add a b)) <-> In q (used a) \/ In q (used b)).
 Proof. exact used_add_union. Qed.
+
+(** [replaced a b = false] means exactly that no calibration key of B is bound in A. *)
+Theorem C11_not_replaced_disjoint :
+  forall (a b : program) (kd : kind) (k : N) (v : instr),
+    WF a -> WF b -> replaced a b = false -> is_cal_kind kd = true ->
+    In (k, v) (defs kd b) -> lookup k (defs kd a) = None.
+Proof. exact replaced_false_disjoint. Qed.
+
+(** In both cases the cache of A+B stays in step with its content when those of A and B are. *)
+Theorem C11_used_content :
+  forall a b : program, WF a -> WF b -> InvG a -> InvG b -> InvG (add a b).
+Proof. exact InvG_add. Qed.
 
 (** Concatenation with the empty program is an identity on both sides. *)
 Theorem C11_empty_right : forall a : program, add a empty = a.
@@ -72,6 +94,6 @@ Example C11_nonvacuous :
   let b := from_instructions [Decl 1 7; FrameDef 0 0 [0]; Calib 0 1 [0; 6]; Body 1 [1; 2]; Decl 2 0]%N in
   to_instructions (add a b) =
     [Decl 0 0; Decl 1 7; Decl 2 0; FrameDef 0 0 [0]; Calib 0 1 [0; 6]; Body 0 [0]; Body 1 [1; 2]]%N
-  /\ used (add a b) = [0; 5; 0; 0; 6; 1; 2]%N
+  /\ replaced a b = true /\ used (add a b) = [0; 6; 0; 1; 2]%N
   /\ chk_concat (obs_of a) (obs_of b) (obs_of (add a b)) = true.
 Proof. vm_compute. repeat split; reflexivity. Qed.
